@@ -1,0 +1,84 @@
+//go:build verif
+
+package interpreter
+
+// Contracts for package interpreter, checked by /verif/govc (contract-based deductive
+// verification). This file contains comments only; it is compiled only under
+// the build tag "verif" and adds no code.
+
+//@ global ErrUnsupportedFeature != nil && ErrSyntaxError != nil && ErrUnsupportedFeature != ErrSyntaxError
+
+// ---- C20: the native interpreter's registry ----------------------------------------------------------------
+// NKey: the registry key of an expression of a table: the table name, "|", and the expression text with
+// surrounding white space removed and inner white space collapsed (wsnorm)
+//@ pred NKey(table string, expr string) := table + "|" + wsnorm(expr)
+
+// MapOf: the registry consulted for an expression kind
+//@ pred KnownKind(k ExpressionType) := k == "key" || k == "filter" || k == "conditional"
+//@ pred HasMatcher(ni *Native, table string, expr string, k ExpressionType) :=
+//@   (k == "key" && NKey(table, expr) in ni.keyExpressions) || (k == "filter" && NKey(table, expr) in ni.filterExpressions) ||
+//@   (k == "conditional" && NKey(table, expr) in ni.writeCondExpressions)
+//@ pred MatcherOf(ni *Native, table string, expr string, k ExpressionType) :=
+//@   (k == "key" ? ni.keyExpressions[NKey(table, expr)] : (k == "filter" ? ni.filterExpressions[NKey(table, expr)] : ni.writeCondExpressions[NKey(table, expr)]))
+
+//@ func hashExpressionKey
+//@   ensures[C20] result == wsnorm(s)
+
+//@ func (*Native).getMatcher
+//@   requires ni != nil
+//@   ensures[C20] (result1 == nil) == HasMatcher(ni, tablename, expression, kind)
+//@   ensures[C20] result1 == nil ==> result0 == MatcherOf(ni, tablename, expression, kind)
+//@   ensures[C20] result1 != nil ==> errIs(result1, ErrUnsupportedFeature)
+
+//@ func (*Native).Match
+//@   partial
+//@   requires ni != nil
+//@   ensures[C20] (result1 == nil) == old(HasMatcher(ni, input.TableName, input.Expression, input.ExpressionType))
+//@   ensures[C20] result1 == nil ==> result0 == dynresult(old(MatcherOf(ni, input.TableName, input.Expression, input.ExpressionType)), old(input.Item), old(input.Attributes))
+//@   ensures[C20] result1 != nil ==> errIs(result1, ErrUnsupportedFeature) && !result0 && !dyncalls() && unchangedAll()
+
+//@ func (*Native).Update
+//@   partial
+//@   requires ni != nil
+//@   ensures[C20] (result == nil) == old(NKey(input.TableName, input.Expression) in ni.updateExpressions)
+//@   ensures[C20] result != nil ==> errIs(result, ErrUnsupportedFeature) && !dyncalls() && unchangedAll()
+
+//@ func (*Native).AddUpdater
+//@   requires ni != nil && ni.updateExpressions != nil
+//@   modifies ni.updateExpressions[*]
+//@   ensures[C20] dom(ni.updateExpressions) == with(old(dom(ni.updateExpressions)), NKey(tablename, expr)) && ni.updateExpressions[NKey(tablename, expr)] == updater
+//@   ensures[C20] forall k string :: {ni.updateExpressions[k]} k != NKey(tablename, expr) ==> ni.updateExpressions[k] == old(ni.updateExpressions[k])
+
+//@ func (*Native).AddMatcher
+//@   maypanic
+//@   requires ni != nil && ni.keyExpressions != nil && ni.filterExpressions != nil && ni.writeCondExpressions != nil
+//@   requires ni.keyExpressions != ni.filterExpressions && ni.keyExpressions != ni.writeCondExpressions && ni.filterExpressions != ni.writeCondExpressions
+//@   modifies ni.keyExpressions[*], ni.filterExpressions[*], ni.writeCondExpressions[*]
+//@   aborts !KnownKind(t) && unchangedAll()
+//@   ensures[C20] KnownKind(t) && HasMatcher(ni, tablename, expr, t) && MatcherOf(ni, tablename, expr, t) == matcher
+//@   ensures[C20] t != "key" ==> content(ni.keyExpressions) == old(content(ni.keyExpressions))
+//@   ensures[C20] t != "filter" ==> content(ni.filterExpressions) == old(content(ni.filterExpressions))
+//@   ensures[C20] t != "conditional" ==> content(ni.writeCondExpressions) == old(content(ni.writeCondExpressions))
+//@   ensures[C20] forall k string :: {ni.keyExpressions[k]} k != NKey(tablename, expr) ==> ni.keyExpressions[k] == old(ni.keyExpressions[k]) && (k in ni.keyExpressions) == old(k in ni.keyExpressions)
+//@   ensures[C20] forall k string :: {ni.filterExpressions[k]} k != NKey(tablename, expr) ==> ni.filterExpressions[k] == old(ni.filterExpressions[k]) && (k in ni.filterExpressions) == old(k in ni.filterExpressions)
+//@   ensures[C20] forall k string :: {ni.writeCondExpressions[k]} k != NKey(tablename, expr) ==> ni.writeCondExpressions[k] == old(ni.writeCondExpressions[k]) && (k in ni.writeCondExpressions) == old(k in ni.writeCondExpressions)
+
+//@ func NewNativeInterpreter
+//@   ensures[C20] fresh(result) && result != nil
+//@   ensures[C20] len(result.filterExpressions) == 0 && len(result.keyExpressions) == 0 && len(result.writeCondExpressions) == 0 && len(result.updateExpressions) == 0
+//@   ensures[C20] fresh(result.filterExpressions) && fresh(result.keyExpressions) && fresh(result.writeCondExpressions) && fresh(result.updateExpressions)
+//@   ensures[C20] result.keyExpressions != result.filterExpressions && result.keyExpressions != result.writeCondExpressions && result.filterExpressions != result.writeCondExpressions
+
+// ---- the built-in interpreter seen from its callers -------------------------------------------------------------
+// langVerdict: the verdict of the built-in interpreter, as a function of the request (table name, expression text and kind,
+// item attributes, expression attribute values, name aliases - each map as its content)
+//@ smt (declare-fun langVerdict (Str Str Str (Array Str Bool) (Array Str Int) (Array Str Bool) (Array Str Int) (Array Str Bool) (Array Str Str)) Bool)
+//@ func (*Language).Match
+//@   assumed
+//@   ensures result1 == nil ==> result0 == langVerdict(input.TableName, input.Expression, input.ExpressionType, dom(input.Item), vals(input.Item), dom(input.Attributes), vals(input.Attributes), dom(input.Aliases), vals(input.Aliases))
+
+// the built-in update evaluator changes at most the attributes of the item it is given (what it computes is C07's subject)
+//@ func (*Language).Update
+//@   assumed
+//@   requires input.Item != nil
+//@   modifies input.Item[*]
